@@ -869,9 +869,16 @@ pub fn check_main(check: &dyn Check, tier: Tier) -> i32 {
         agg.deferred.values().map(|v| v.count).sum::<u64>(),
         if agg.capped_units.is_empty() { "" } else { " TIME-CAP-HIT" }
     );
+    // a violation that reproduces stands even if the run could not be completed
+    // (e.g. a worker gave up after too many subject crashes)
+    let confirmed_new = new_violations.saturating_sub(nondeterministic.len() as u64);
     if !machinery.is_empty() {
         for m in &machinery {
             eprintln!("MACHINERY-ERROR {id}: {m}");
+        }
+        if confirmed_new > 0 {
+            eprintln!("{id}: the run is incomplete, the violations reported above stand");
+            return 1;
         }
         return 2;
     }
